@@ -2,7 +2,7 @@
    start-never-seen regime, closing flushes and re-opened connections (per-stream accounting).
    An abstract state [gst] (dead / live with the delivery point and the start of the kept bytes,
    or start unknown) follows the events; [gev] says which events are legal and what they carry. *)
-From GP Require Import Base C09Model C09Spec C09Seq C09Proofs C09Stream C09Flush C09Keep C09Send.
+From GP Require Import Base C09Model C09Spec C09Seq C09Proofs C09Stream C09Flush C09Keep C09Send C09Cover.
 From Coq Require Import Lia ZifyBool ZifyNat.
 Ltac Zify.zify_post_hook ::= Z.div_mod_to_equations.
 Open Scope Z_scope.
@@ -107,6 +107,20 @@ Definition gnote (g : gst) (syn : bool) : gst :=
   | _ => g
   end.
 
+Definition lo_of (kn : option (Z * Z)) : Z := match kn with None => 0 | Some (_, p) => p end.
+
+(* the queue against the ranges R received by the stream (Model/C09Spec.v, o_recv): every received
+   byte at or beyond the delivery point is held, every held byte was received, and the delivery point
+   does not lie beyond everything received *)
+Definition rcv_ok (S : list Z) (i : Z) (R : list (Z * Z)) (kn : option (Z * Z)) (q : list page) : Prop :=
+  Rpos R /\ Forall (fun r => 0 <= fst r) R /\
+  (forall x, inR R x -> lo_of kn <= x -> covl S i q x) /\ (forall x, covl S i q x -> inR R x) /\
+  match kn with Some (_, p) => R = [] \/ p <= max_recv R | None => True end.
+
+Section WithR.
+(* the received ranges, after the segment of the current step has been noted *)
+Variable R : list (Z * Z).
+
 (* what one event may be and do.  allow: data beyond a gap may be released in this step (a flush,
    or a page limit is configured).  nc: ReassembledSG calls so far (index into the KeepFrom script). *)
 Definition gev (S : list Z) (c : cfg) (allow syn : bool) (nc : nat) (g : gst) (e : event) (g' : gst) : Prop :=
@@ -114,10 +128,16 @@ Definition gev (S : list Z) (c : cfg) (allow syn : bool) (nc : nat) (g : gst) (e
   | ETag _ => g' = g
   | EPanic _ => False
   | ENew _ => g = GDead /\ g' = gnote (GLive None false) syn
-  | EDone _ => (exists kn en, g = GLive kn en) /\ g' = GDead
+  | EDone _ =>
+    (* completion: the data half was ended by FIN/RST, or everything received has been delivered *)
+    (exists kn en, g = GLive kn en /\
+       (en = true \/ match kn with Some (_, p) => max_recv R <= p | None => R = [] end)) /\ g' = GDead
   | ESG _ b _ en skip avail saved =>
     exists kn a e', g = GLive kn false /\ 0 <= a /\ a <= e' /\ e' <= zlen S /\
-      match kn with Some (A, p) => 0 <= A /\ A <= p /\ p <= a /\ (a = p \/ allow = true) | None => True end /\
+      match kn with
+      | Some (A, p) => 0 <= A /\ A <= p /\ p <= a /\ (a = p \/ allow = true) /\ (p < a -> hits R p a = false)
+      | None => a = min_recv R
+      end /\
       skip = sg_skip kn a /\ saved = a - sg_start kn a /\ avail = e' - sg_start kn a /\
       b = sub S (sg_start kn a) (e' - sg_start kn a) /\
       g' = GLive (Some ((if (0 <=? keep_choice c nc avail saved) && (keep_choice c nc avail saved <? avail)
@@ -164,6 +184,9 @@ Lemma deliver : forall S i c s h used r0 a kn allow syn,
   zlen S < HIS -> s_exists s = true -> s_cfg s = c -> h_closed h = false ->
   cok S i a r0 -> qok S i (a + clen r0) HIS (h_queue h) -> known_ok S i h kn a ->
   match kn with Some (_, p) => a = p \/ allow = true | None => True end ->
+  match kn with Some (_, p) => p < a -> hits R p a = false | None => a = min_recv R end ->
+  Rpos R -> Forall (fun r => 0 <= fst r) R -> (forall x, inR R x -> a + clen r0 <= x -> covl S i (h_queue h) x) ->
+  (forall x, covl S i (h_queue h) x -> inR R x) -> (R = [] \/ a + clen r0 <= max_recv R) ->
   exists s1 e' ev g',
     send_st fullv s h used r0 = (s1, sq i e', ev, false) /\
     gevs S c allow syn (s_ncalls s) (GLive kn false) ev g' /\ nsg ev = 1%nat /\
@@ -173,12 +196,25 @@ Lemma deliver : forall S i c s h used r0 a kn allow syn,
     | GDead => s_exists s1 = false /\ h_closed (s_half s1) = true
     | GLive kn' en =>
       s_exists s1 = true /\ h_closed (s_half s1) = en /\ s_rev_closed s1 = s_rev_closed s /\
+      (en = true -> s_rev_closed s1 = false) /\
       exists A', kn' = Some (A', e') /\
         (en = false -> h_next (s_half s1) = h_next h /\ 0 <= A' /\ sok S i A' e' (h_saved (s_half s1)) /\
-                       qok S i (e' + 1) HIS (h_queue (s_half s1)) /\ (h_queue h = [] -> cend r0 = false))
+                       qok S i (e' + 1) HIS (h_queue (s_half s1)) /\ (h_queue h = [] -> cend r0 = false) /\
+                       rcv_ok S i R (Some (A', e')) (h_queue (s_half s1)))
     end.
 Proof.
-  intros S i c s h used r0 a kn allow syn HS Hex Hcfg Hop Hc Hq Hk Hal.
+  intros S i c s h used r0 a kn allow syn HS Hex Hcfg Hop Hc Hq Hk Hal Hskip HRp HRn HC1 HC2 HI3.
+  assert (Hrcv : forall e', sr_next (send fullv c h used r0 (s_sid s) (s_ncalls s)) = sq i e' ->
+                   a + clen r0 <= e' -> e' <= zlen S -> forall A',
+                   rcv_ok S i R (Some (A', e')) (h_queue (sr_half (send fullv c h used r0 (s_sid s) (s_ncalls s))))).
+  { intros e' Hnx He1 He2 A'. pose proof Hc as (Ha0 & HaS & Hcq & _).
+    destruct (send_cover S i c h used r0 (s_sid s) (s_ncalls s) a e' HS Hcq Ha0 HaS Hq Hnx He1 He2) as (K1 & K2 & _).
+    unfold rcv_ok. cbn [lo_of]. split; [exact HRp|]. split; [exact HRn|]. split; [|split].
+    - intros x Hx Hge. apply K1; [apply HC1; [exact Hx|lia]|exact Hge].
+    - intros x Hx. apply HC2. apply K2. exact Hx.
+    - destruct (Z.eq_dec e' (a + clen r0)) as [He|He]; [rewrite He; exact HI3|].
+      right. assert (Hl := send_last_held S i c h used r0 (s_sid s) (s_ncalls s) a e' HS Hcq Ha0 HaS Hq Hnx ltac:(lia) He2).
+      apply HC2 in Hl. apply inR_max in Hl. lia. }
   destruct (send_gen S i c h used r0 (s_sid s) (s_ncalls s) kn a HS Hc Hq Hk)
     as (e' & saved2 & q1 & tg & st0 & Hr).
   cbv zeta in Hr.
@@ -189,9 +225,12 @@ Proof.
   set (Anew := if (0 <=? k) && (k <? e' - A') then A' + k else e') in *.
   pose proof (clen_nonneg r0) as Hcn.
   assert (HAn : 0 <= Anew) by (subst Anew; destruct ((0 <=? k) && (k <? e' - A')) eqn:E; lia).
-  assert (Hkn : match kn with Some (A, p) => 0 <= A /\ A <= p /\ p <= a /\ (a = p \/ allow = true) | None => True end).
-  { destruct kn as [(A, p)|]; [|exact I]. cbn [known_ok] in Hk. destruct Hk as (_ & HA & Hs & Hpa).
-    pose proof (sok_range _ _ _ _ _ Hs). auto. }
+  assert (Hkn : match kn with
+                | Some (A, p) => 0 <= A /\ A <= p /\ p <= a /\ (a = p \/ allow = true) /\ (p < a -> hits R p a = false)
+                | None => a = min_recv R
+                end).
+  { destruct kn as [(A, p)|]; [|exact Hskip]. cbn [known_ok] in Hk. destruct Hk as (_ & HA & Hs & Hpa).
+    pose proof (sok_range _ _ _ _ _ Hs). auto 10. }
   assert (Hsg : forall en, gev S c allow syn (s_ncalls s) (GLive kn false)
                   (ESG (s_sid s) (sub S A' (e' - A')) st0 en (sg_skip kn a) (e' - A') (a - A'))
                   (GLive (Some (Anew, e')) en)).
@@ -207,7 +246,7 @@ Proof.
       split.
       { rewrite Hev. rewrite <- app_assoc. eapply gevs_app; [apply gevs_tags|]. rewrite nsg_tags, Nat.add_0_r.
         cbn [app gevs is_sg]. exists (GLive (Some (Anew, e')) true). split; [apply Hsg|].
-        exists GDead. split; [|reflexivity]. cbn [gev]. split; [eauto|reflexivity]. }
+        exists GDead. split; [|reflexivity]. cbn [gev]. split; [eauto 6|reflexivity]. }
       split; [rewrite Hev; rewrite nsg_app, nsg_app, nsg_tags; reflexivity|].
       cbn [s_cfg s_ncalls s_rev_seen s_sid s_exists s_half h_closed]. repeat split; try reflexivity; lia.
     + eexists. exists e'. eexists. exists (GLive (Some (Anew, e')) true). split; [rewrite Hnx; reflexivity|].
@@ -217,7 +256,7 @@ Proof.
       split; [rewrite Hev; rewrite app_nil_r, nsg_app, nsg_tags; reflexivity|].
       cbn [s_cfg s_ncalls s_rev_seen s_sid s_exists s_half s_rev_closed h_closed].
       split; [lia|]. split; [lia|]. split; [reflexivity|]. split; [reflexivity|]. split; [reflexivity|]. split; [reflexivity|].
-      split; [exact Hex|]. split; [reflexivity|]. split; [reflexivity|].
+      split; [exact Hex|]. split; [reflexivity|]. split; [reflexivity|]. split; [intros _; reflexivity|].
       exists Anew. split; [reflexivity|]. intros Hc0; discriminate.
   - eexists. exists e'. eexists. exists (GLive (Some (Anew, e')) false). split; [rewrite Hnx; reflexivity|].
     split.
@@ -226,10 +265,11 @@ Proof.
     split; [rewrite Hev; rewrite nsg_app, nsg_tags; reflexivity|].
     cbn [s_cfg s_ncalls s_rev_seen s_sid s_exists s_half s_rev_closed].
     split; [lia|]. split; [lia|]. split; [reflexivity|]. split; [reflexivity|]. split; [reflexivity|]. split; [reflexivity|].
-    split; [exact Hex|]. split; [rewrite Hcl; exact Hop|]. split; [reflexivity|].
+    split; [exact Hex|]. split; [rewrite Hcl; exact Hop|]. split; [reflexivity|]. split; [intros Hc0; discriminate|].
     exists Anew. split; [reflexivity|]. intros _.
     split; [exact Hnext|]. split; [exact HAn|]. split; [rewrite Hsv; exact Hsok|]. split; [rewrite Hqu; exact Hq1|].
-    intros Hq0. rewrite <- (Hend Hq0). reflexivity.
+    split; [intros Hq0; rewrite <- (Hend Hq0); reflexivity|].
+    apply Hrcv; [exact Hnx|lia|lia].
 Qed.
 
 (* ---------------------------------------------------------------- AssembleWithContext in pieces *)
@@ -316,8 +356,6 @@ Lemma assemble_unfold : forall v s0 g,
 Proof. intros. unfold assemble. destruct (s_exists s0); reflexivity. Qed.
 
 (* ---------------------------------------------------------------- the invariant *)
-Definition lo_of (kn : option (Z * Z)) : Z := match kn with None => 0 | Some (_, p) => p end.
-
 Definition half_ok (S : list Z) (i : Z) (kn : option (Z * Z)) (h : half) : Prop :=
   h_closed h = false /\ qok S i (lo_of kn) HIS (h_queue h) /\
   match kn with
@@ -325,11 +363,14 @@ Definition half_ok (S : list Z) (i : Z) (kn : option (Z * Z)) (h : half) : Prop 
   | Some (A, p) => h_next h = sq i p /\ 0 <= A /\ p <= zlen S /\ sok S i A p (h_saved h)
   end.
 
-Definition ginv (c : cfg) (S : list Z) (i : Z) (g : gst) (st : st) : Prop :=
+Definition ginv (c : cfg) (S : list Z) (i : Z) (R0 : list (Z * Z)) (g : gst) (st : st) : Prop :=
   s_cfg st = c /\
   match g with
   | GDead => s_exists st = false
-  | GLive kn en => s_exists st = true /\ h_closed (s_half st) = en /\ (en = false -> half_ok S i kn (s_half st))
+  | GLive kn en => s_exists st = true /\ h_closed (s_half st) = en /\
+                   (en = false -> half_ok S i kn (s_half st) /\ rcv_ok S i R0 kn (h_queue (s_half st))) /\
+                   (* a connection with both halves closed does not stay in the pool *)
+                   (en = true -> s_rev_closed st = false)
   end.
 
 Lemma limit_hit_on : forall c x y, limit_hit c x y = true -> limits_on c = true.
@@ -342,38 +383,136 @@ Proof.
   - exact H.
 Qed.
 
+(* handing over the first queued page: what deliver needs about the received ranges *)
+Lemma first_page_facts : forall S i kn p1 q' o1,
+  zlen S < HIS -> rcv_ok S i R kn (p1 :: q') -> pg S i o1 p1 -> lo_of kn <= o1 ->
+  qok S i (o1 + plen p1) HIS q' -> o1 + plen p1 <= HIS ->
+  match kn with Some (_, p) => p < o1 -> hits R p o1 = false | None => o1 = min_recv R end /\
+  Rpos R /\ Forall (fun r => 0 <= fst r) R /\
+  (forall x, inR R x -> o1 + plen p1 <= x -> covl S i q' x) /\
+  (forall x, covl S i q' x -> inR R x) /\ (R = [] \/ o1 + plen p1 <= max_recv R).
+Proof.
+  intros S i kn p1 q' o1 HS (HRp & HRn & C1 & C2 & I3) Hpg Hlo Hq' Hhi.
+  assert (HRp' : forall r, In r R -> 0 < snd r) by (apply Forall_forall; exact HRp).
+  assert (HRn' : forall r, In r R -> 0 <= fst r) by (apply Forall_forall; exact HRn).
+  pose proof Hpg as (Hp0 & Hpl & HpS & _).
+  assert (Hqq : qok S i o1 HIS (p1 :: q')).
+  { cbn [qok]. exists o1. split; [lia|]. split; [lia|]. split; assumption. }
+  assert (Hfirst : forall x, covl S i (p1 :: q') x -> o1 <= x) by (intros x Hx; eapply qok_cov_ge; eauto).
+  assert (Hone : forall x, covl S i [p1] x <-> o1 <= x < o1 + plen p1) by (intros; apply covl_one; assumption).
+  split.
+  { destruct kn as [(A, p)|].
+    - intros Hlt. apply hits_false; [exact Hlt|exact HRp|]. intros x Hx Hin.
+      cbn [lo_of] in C1. specialize (Hfirst x (C1 x Hin ltac:(lia))). lia.
+    - symmetry. apply min_recv_is.
+      + intros r Hin. specialize (HRp' r Hin). specialize (HRn' r Hin).
+        apply Hfirst. apply C1; [exists r; split; [exact Hin|lia]|cbn [lo_of]; lia].
+      + assert (Hc : covl S i (p1 :: q') o1) by (rewrite covl_cons; left; apply Hone; lia).
+        destruct (C2 o1 Hc) as (r & Hin & Hr). exists r. split; [exact Hin|].
+        specialize (HRp' r Hin). specialize (HRn' r Hin).
+        assert (o1 <= fst r); [|lia].
+        apply Hfirst. apply C1; [exists r; split; [exact Hin|lia]|cbn [lo_of]; lia]. }
+  split; [exact HRp|]. split; [exact HRn|]. split; [|split].
+  - intros x Hx Hge. specialize (C1 x Hx ltac:(lia)). rewrite covl_cons in C1. destruct C1 as [C|C]; [|exact C].
+    apply Hone in C. lia.
+  - intros x Hx. apply C2. rewrite covl_cons. right. exact Hx.
+  - right. assert (Hc : covl S i (p1 :: q') (o1 + plen p1 - 1)) by (rewrite covl_cons; left; apply Hone; lia).
+    apply C2 in Hc. apply inR_max in Hc. lia.
+Qed.
+
+(* noting a queued segment S[o, o+n), o at or beyond the delivery point *)
+Lemma queue_note : forall S i R0 kn q o n ts fl,
+  zlen S < HIS -> qok S i (lo_of kn) HIS q -> 0 <= lo_of kn -> lo_of kn <= o -> 0 <= n -> o + n <= zlen S ->
+  rcv_ok S i R0 kn q -> R = (if 0 <? n then (o, n) :: R0 else R0) ->
+  rcv_ok S i R kn (c2_queue (check_overlap fullv q (sub S o n) (sq i o) ts fl true)).
+Proof.
+  intros S i R0 kn q o n ts fl HS Hq Hlo Ho Hn HoS (HRp & HRn & C1 & C2 & I3) HR.
+  pose proof (check_overlap_cover S i (lo_of kn) q o n ts fl true HS Hq Hlo ltac:(lia) Hn HoS) as Hcov.
+  destruct (check_overlap_sound S i (lo_of kn) q o n ts fl true HS Hq Hlo ltac:(lia) Hn HoS) as (Hsnd & _).
+  cbv zeta in Hcov.
+  assert (HinR : forall x, inR R x <-> (0 < n /\ o <= x < o + n) \/ inR R0 x).
+  { intros x. subst R. destruct (0 <? n) eqn:E.
+    - rewrite inR_cons. cbn [fst snd]. split; intros [H|H]; auto; left; lia.
+    - split; [auto|]. intros [H|H]; [lia|exact H]. }
+  unfold rcv_ok. split; [|split; [|split; [|split]]].
+  - subst R. destruct (0 <? n) eqn:E; [constructor; [cbn [snd]; lia|exact HRp]|exact HRp].
+  - subst R. destruct (0 <? n) eqn:E; [constructor; [cbn [fst]; lia|exact HRn]|exact HRn].
+  - intros x Hx Hge. apply HinR in Hx. apply Hcov.
+    destruct (Z_lt_dec x o); [left; split; [|lia]|destruct (Z_lt_dec x (o + n)); [right; split; [reflexivity|lia]|left; split; [|lia]]];
+      (destruct Hx as [Hx|Hx]; [lia|apply C1; assumption]).
+  - intros x Hx. apply HinR. destruct (Hsnd x Hx) as [H|(_ & H)]; [right; apply C2; exact H|left; lia].
+  - destruct kn as [(A, p)|]; [|exact I]. cbn [lo_of] in *. subst R. destruct (0 <? n) eqn:E; [|exact I3].
+    right. pose proof (max_recv_cons (o, n) R0) as (_ & Hm). cbn [fst snd] in Hm. lia.
+Qed.
+
+(* noting a segment delivered in order: its new bytes are S[p, p+nt) *)
+Lemma inorder_note : forall S i R0 A p q nt ts fl n',
+  zlen S < HIS -> qok S i p HIS q -> 0 <= p -> 0 <= nt -> p + nt <= zlen S ->
+  rcv_ok S i R0 (Some (A, p)) q -> R = (if 0 <? nt then (p, nt) :: R0 else R0) ->
+  (n' = 0 \/ n' = nt) -> c2_bytes (check_overlap fullv q (sub S p nt) (sq i p) ts fl false) = sub S p n' ->
+  Rpos R /\ Forall (fun r => 0 <= fst r) R /\
+  (forall x, inR R x -> p + n' <= x -> covl S i (c2_queue (check_overlap fullv q (sub S p nt) (sq i p) ts fl false)) x) /\
+  (forall x, covl S i (c2_queue (check_overlap fullv q (sub S p nt) (sq i p) ts fl false)) x -> inR R x) /\
+  (R = [] \/ p + n' <= max_recv R).
+Proof.
+  intros S i R0 A p q nt ts fl n' HS Hq Hp Hnt HntS (HRp & HRn & C1 & C2 & I3) HR Hn' Hb.
+  cbn [lo_of] in C1.
+  pose proof (check_overlap_cover S i p q p nt ts fl false HS Hq Hp Hp Hnt HntS) as Hcov.
+  destruct (check_overlap_sound S i p q p nt ts fl false HS Hq Hp Hp Hnt HntS) as (Hsnd & Hsw).
+  cbv zeta in Hcov.
+  assert (HinR : forall x, inR R x <-> (0 < nt /\ p <= x < p + nt) \/ inR R0 x).
+  { intros x. subst R. destruct (0 <? nt) eqn:E.
+    - rewrite inR_cons. cbn [fst snd]. split; intros [H|H]; auto; left; lia.
+    - split; [auto|]. intros [H|H]; [lia|exact H]. }
+  split; [|split; [|split; [|split]]].
+  - subst R. destruct (0 <? nt) eqn:E; [constructor; [cbn [snd]; lia|exact HRp]|exact HRp].
+  - subst R. destruct (0 <? nt) eqn:E; [constructor; [cbn [fst]; lia|exact HRn]|exact HRn].
+  - intros x Hx Hge. apply HinR in Hx.
+    destruct (Z_lt_dec x (p + nt)) as [Hlt|Hnl].
+    + (* inside the new range although beyond p + n': the bytes were swallowed (case 6) and are still held *)
+      assert (n' = 0) by lia. subst n'. apply Hsw; [exact Hb|lia].
+    + apply Hcov. left. split; [|lia]. destruct Hx as [Hx|Hx]; [lia|apply C1; [exact Hx|lia]].
+  - intros x Hx. apply HinR. destruct (Hsnd x Hx) as [H|(Hc & _)]; [right; apply C2; exact H|discriminate].
+  - subst R. destruct (0 <? nt) eqn:E.
+    + right. pose proof (max_recv_cons (p, nt) R0) as (_ & Hm). cbn [fst snd] in Hm. lia.
+    + assert (nt = 0) by lia. assert (n' = 0) by lia. subst. rewrite Z.add_0_r. exact I3.
+Qed.
+
 (* the state after deliver, with nextSeq stored: the invariant *)
 Lemma after_deliver : forall S i c s1 e' g' N,
   s_cfg s1 = c -> e' <= zlen S ->
   match g' with
   | GDead => s_exists s1 = false
   | GLive kn' en =>
-    s_exists s1 = true /\ h_closed (s_half s1) = en /\
+    s_exists s1 = true /\ h_closed (s_half s1) = en /\ (en = true -> s_rev_closed s1 = false) /\
     exists A', kn' = Some (A', e') /\
       (en = false -> N = sq i e' /\ 0 <= A' /\ sok S i A' e' (h_saved (s_half s1)) /\
-                     qok S i (e' + 1) HIS (h_queue (s_half s1)))
+                     qok S i (e' + 1) HIS (h_queue (s_half s1)) /\
+                     rcv_ok S i R (Some (A', e')) (h_queue (s_half s1)))
   end ->
-  ginv c S i g' (set_half s1 (set_next (s_half s1) N)).
+  ginv c S i R g' (set_half s1 (set_next (s_half s1) N)).
 Proof.
   intros S i c s1 e' g' N Hc He H. unfold ginv. cbn [set_half s_cfg]. split; [exact Hc|].
   destruct g' as [|kn' en]; cbn [set_half s_exists s_half set_next h_closed].
   - exact H.
-  - destruct H as (H1 & H2 & A' & Hk & H3). split; [exact H1|]. split; [exact H2|].
-    intros Hen. destruct (H3 Hen) as (HN & HA & Hs & Hq). subst kn' N.
+  - destruct H as (H1 & H2 & Hrv & A' & Hk & H3). split; [exact H1|]. split; [exact H2|].
+    cbn [s_rev_closed]. split; [|exact Hrv].
+    intros Hen. destruct (H3 Hen) as (HN & HA & Hs & Hq & Hrc). subst kn' N.
     unfold half_ok. cbn [set_next h_closed h_queue h_next h_saved lo_of].
-    split; [congruence|]. split; [eapply qok_weaken; eauto; lia|]. auto.
+    split; [|exact Hrc]. split; [congruence|]. split; [eapply qok_weaken; eauto; lia|]. auto.
 Qed.
 
 (* ---------------------------------------------------------------- queue branch *)
-Lemma asm_queue_ok : forall S i c syn s evn l0 h kn o n g,
+Lemma asm_queue_ok : forall S i c syn s evn l0 h kn o n g R0,
   zlen S < HIS -> s_exists s = true -> s_cfg s = c -> half_ok S i kn h ->
   lo_of kn <= o -> 0 <= n -> o + n <= zlen S -> g_bytes g = sub S o n ->
+  rcv_ok S i R0 kn (h_queue h) -> R = (if 0 <? n then (o, n) :: R0 else R0) ->
   exists st' ev g',
     asm_queue_body fullv s evn (map ETag l0) h (sq i o) g = (st', evn ++ ev, false) /\
-    gevs S c (limits_on c) syn (s_ncalls s) (GLive kn false) ev g' /\ ginv c S i g' st' /\
+    gevs S c (limits_on c) syn (s_ncalls s) (GLive kn false) ev g' /\ ginv c S i R g' st' /\
     s_ncalls st' = (s_ncalls s + nsg ev)%nat.
 Proof.
-  intros S i c syn s evn l0 h kn o n g HS Hex Hcfg Hh Ho Hn HoS Hb.
+  intros S i c syn s evn l0 h kn o n g R0 HS Hex Hcfg Hh Ho Hn HoS Hb Hrc0 HR.
   pose proof Hh as (Hcl & Hq & Hkn).
   assert (Hlo : 0 <= lo_of kn).
   { destruct kn as [(A, p)|]; cbn [lo_of]; [|lia]. destruct Hkn as (_ & HA & _ & Hs). apply sok_range in Hs. lia. }
@@ -382,23 +521,26 @@ Proof.
   destruct (check_overlap_queue_full S i (lo_of kn) (h_queue h) o n (g_ts g) (g_rst g || g_fin g))
     as (Hp & Hq'); try lia; try assumption.
   fold r in Hp, Hq'. rewrite Hp. rewrite Hcfg.
+  assert (Hrc : rcv_ok S i R kn (c2_queue r)).
+  { subst r. apply (queue_note S i R0 kn (h_queue h) o n); try assumption; lia. }
   assert (Hstay : forall used1 pages1,
     exists st' ev g',
       (mkSt c (s_exists s) (mkHalf pages1 (h_saved h) (c2_queue r) (h_next h) (h_seen h) (h_closed h))
             (s_rev_closed s) (s_rev_seen s) used1 (s_sid s) (s_ncalls s),
        evn ++ map ETag l0 ++ map ETag (c2_tags r), false) = (st', evn ++ ev, false) /\
-      gevs S c (limits_on c) syn (s_ncalls s) (GLive kn false) ev g' /\ ginv c S i g' st' /\
+      gevs S c (limits_on c) syn (s_ncalls s) (GLive kn false) ev g' /\ ginv c S i R g' st' /\
       s_ncalls st' = (s_ncalls s + nsg ev)%nat).
   { intros used1 pages1. eexists. exists (map ETag (l0 ++ c2_tags r)), (GLive kn false).
     split; [rewrite map_app; reflexivity|]. split; [apply gevs_tags|]. split.
     - unfold ginv. cbn [s_cfg s_exists s_half h_closed]. split; [reflexivity|]. split; [exact Hex|]. split; [exact Hcl|].
-      intros _. unfold half_ok. cbn [h_closed h_queue h_next h_saved]. auto.
+      split; [|intros Hc; discriminate]. intros _. split; [|exact Hrc]. unfold half_ok. cbn [h_closed h_queue h_next h_saved]. auto.
     - rewrite nsg_tags. cbn [s_ncalls]. lia. }
   destruct (limit_hit c (h_pages h - c2_rel r + c2_added r) (s_used s - c2_rel r + c2_added r)) eqn:Elim.
   2: apply Hstay.
   destruct (c2_queue r) as [|p1 q'] eqn:Eq.
   { apply Hstay. }
   cbn [qok] in Hq'. destruct Hq' as (o1 & Ho1 & Ho1e & Hpg & Hq1').
+  destruct (first_page_facts S i kn p1 q' o1 HS Hrc Hpg Ho1 Hq1' Ho1e) as (F1 & F2 & F3 & F4 & F5 & F6).
   destruct (deliver S i c s
               (mkHalf (h_pages h - c2_rel r + c2_added r) (h_saved h) q' (h_next h) (h_seen h) (h_closed h))
               (s_used s - c2_rel r + c2_added r) (CPage p1) o1 kn (limits_on c) syn HS Hex Hcfg)
@@ -409,6 +551,8 @@ Proof.
   { destruct kn as [(A, p)|]; cbn [known_ok lo_of h_next h_saved] in *; [|exact Hkn].
     destruct Hkn as (H1 & H2 & H3 & H4). auto. }
   { destruct kn as [(A, p)|]; [|exact I]. right. eapply limit_hit_on; eauto. }
+  { exact F1. } { exact F2. } { exact F3. }
+  { cbn [h_queue clen cbytes]. exact F4. } { cbn [h_queue]. exact F5. } { cbn [clen cbytes]. exact F6. }
   rewrite Hsend. rewrite sq_not_invalid. cbn [v_fin fullv negb]. rewrite andb_false_r.
   eexists. exists (map ETag (l0 ++ c2_tags r) ++ ETag 12 :: ev), g'.
   split; [rewrite map_app, <- !app_assoc; reflexivity|]. split.
@@ -417,23 +561,24 @@ Proof.
   - split.
     + apply (after_deliver S i c s1 e' g'); try assumption.
       destruct g' as [|kn' en]; [exact (proj1 Hpost)|].
-      destruct Hpost as (H1 & H2 & _ & A' & Hk & H3). split; [exact H1|]. split; [exact H2|].
-      exists A'. split; [exact Hk|]. intros Hen. destruct (H3 Hen) as (_ & HA & Hs & Hqq & _). auto.
+      destruct Hpost as (H1 & H2 & _ & Hrv & A' & Hk & H3). split; [exact H1|]. split; [exact H2|]. split; [exact Hrv|].
+      exists A'. split; [exact Hk|]. intros Hen. destruct (H3 Hen) as (_ & HA & Hs & Hqq & _ & Hrc'). auto 10.
     + cbn [set_half s_ncalls]. rewrite Hnc. rewrite nsg_app, nsg_tags. unfold nsg in *. cbn [filter is_sg length] in *.
       fold (nsg ev). unfold nsg. lia.
 Qed.
 
 (* ---------------------------------------------------------------- in-order branch *)
-Lemma asm_inorder_ok : forall S i c syn s evn l0 h A p o n g,
+Lemma asm_inorder_ok : forall S i c syn s evn l0 h A p o n g R0,
   zlen S < HIS -> s_exists s = true -> s_cfg s = c -> half_ok S i (Some (A, p)) h ->
   0 <= o -> o <= p -> 0 <= n -> o + n <= zlen S -> g_bytes g = sub S o n ->
   (g_fin g = true -> o + n = zlen S) ->
+  rcv_ok S i R0 (Some (A, p)) (h_queue h) -> R = (if p <? o + n then (p, o + n - p) :: R0 else R0) ->
   exists st' ev g',
     asm_inorder_body fullv s evn (map ETag l0) h (sq i o) g = (st', evn ++ ev, false) /\
-    gevs S c (limits_on c) syn (s_ncalls s) (GLive (Some (A, p)) false) ev g' /\ ginv c S i g' st' /\
+    gevs S c (limits_on c) syn (s_ncalls s) (GLive (Some (A, p)) false) ev g' /\ ginv c S i R g' st' /\
     s_ncalls st' = (s_ncalls s + nsg ev)%nat.
 Proof.
-  intros S i c syn s evn l0 h A p o n g HS Hex Hcfg Hh Ho Hop Hn HoS Hb Hfin.
+  intros S i c syn s evn l0 h A p o n g R0 HS Hex Hcfg Hh Ho Hop Hn HoS Hb Hfin Hrc0 HR.
   pose proof Hh as (Hcl & Hq & Hnx & HA & HpS & Hsv). cbn [lo_of] in Hq.
   pose proof (sok_range _ _ _ _ _ Hsv) as HAp.
   unfold asm_inorder_body. rewrite Hb, Hnx.
@@ -447,7 +592,15 @@ Proof.
   set (r := check_overlap fullv (h_queue h) (sub S p nt) (sq i p) (g_ts g) (g_rst g || g_fin g) false).
   destruct (check_overlap_inorder_gen S i (h_queue h) p nt (g_ts g) (g_rst g || g_fin g) HS Hq ltac:(lia) Hnt HntS)
     as (Hp & n' & Hn' & Hb' & Hq' & Hfull).
-  fold r in Hp, Hb', Hq', Hfull. rewrite Hp, Hb', Hcfg.
+  fold r in Hp, Hb', Hq', Hfull.
+  assert (HR' : R = (if 0 <? nt then (p, nt) :: R0 else R0)).
+  { rewrite HR. subst nt. destruct (p <? o + n) eqn:E1.
+    - replace (0 <? Z.max p (o + n) - p) with true by lia. f_equal. f_equal. lia.
+    - replace (0 <? Z.max p (o + n) - p) with false by lia. reflexivity. }
+  destruct (inorder_note S i R0 A p (h_queue h) nt (g_ts g) (g_rst g || g_fin g) n' HS Hq ltac:(lia) Hnt HntS Hrc0 HR' Hn' Hb')
+    as (N1 & N2 & N3 & N4 & N5).
+  fold r in N3, N4.
+  rewrite Hp, Hb', Hcfg.
   assert (Hn'0 : 0 <= n' <= nt) by (destruct Hn'; lia).
   rewrite (zlen_sub S p n') by lia.
   set (itag := if (0 <? zlen (sub S o n)) && (n' =? 0) then [11] else []).
@@ -466,6 +619,10 @@ Proof.
     { unfold clen. cbn [cbytes lbytes h_queue]. rewrite zlen_sub by lia. exact Hq'. }
     { cbn [known_ok h_next h_saved]. repeat split; try assumption; lia. }
     { left; reflexivity. }
+    { intros Hlt; lia. } { exact N1. } { exact N2. }
+    { unfold clen. cbn [cbytes lbytes h_queue]. rewrite zlen_sub by lia. exact N3. }
+    { cbn [h_queue]. exact N4. }
+    { unfold clen. cbn [cbytes lbytes]. rewrite zlen_sub by lia. exact N5. }
     rewrite Hsend. rewrite sq_not_invalid.
     eexists. exists (map ETag (l0 ++ c2_tags r ++ itag) ++ ev), g'.
     split; [rewrite !map_app, <- !app_assoc; reflexivity|]. split.
@@ -473,9 +630,9 @@ Proof.
     + split.
       * apply (after_deliver S i c s1 e' g'); try assumption.
         destruct g' as [|kn' en]; [exact (proj1 Hpost)|].
-        destruct Hpost as (H1 & H2 & _ & A' & Hk & H3). split; [exact H1|]. split; [exact H2|].
-        exists A'. split; [exact Hk|]. intros Hen. destruct (H3 Hen) as (_ & HA' & Hs & Hqq & Hend).
-        split; [|auto].
+        destruct Hpost as (H1 & H2 & _ & Hrv & A' & Hk & H3). split; [exact H1|]. split; [exact H2|]. split; [exact Hrv|].
+        exists A'. split; [exact Hk|]. intros Hen. destruct (H3 Hen) as (_ & HA' & Hs & Hqq & Hend & Hrc').
+        split; [|auto 10].
         destruct (g_fin g) eqn:Ef; [|reflexivity]. exfalso.
         assert (Hend' : p + nt = zlen S) by (subst nt; specialize (Hfin eq_refl); lia).
         specialize (Hfull Hend'). subst n'.
@@ -486,8 +643,9 @@ Proof.
     eexists. exists (map ETag (l0 ++ c2_tags r ++ itag)), (GLive (Some (A, p)) false).
     split; [rewrite !map_app; reflexivity|]. split; [apply gevs_tags|]. split.
     + unfold ginv. cbn [s_cfg s_exists s_half h_closed]. split; [reflexivity|]. split; [exact Hex|]. split; [exact Hcl|].
-      intros _. unfold half_ok. cbn [h_closed h_queue h_next h_saved lo_of].
-      rewrite Z.add_0_r in Hq'. auto 10.
+      split; [|intros Hc; discriminate]. intros _. rewrite Z.add_0_r in Hq', N3, N5. split.
+      * unfold half_ok. cbn [h_closed h_queue h_next h_saved lo_of]. auto 10.
+      * cbn [h_queue]. unfold rcv_ok. cbn [lo_of]. auto 10.
     + rewrite nsg_tags. cbn [s_ncalls]. lia.
 Qed.
 
@@ -498,23 +656,38 @@ Definition seg_ok (S : list Z) (i : Z) (g : segment) (o n : Z) : Prop :=
   (g_fin g = true -> o + n = zlen S) /\
   (if g_syn g then sadd (g_seq g) 1 else g_seq g) = sq i o /\ (g_syn g = true -> o = 0).
 
-Lemma asm_body_ok : forall S i c syn s evn g kn en o n,
-  zlen S < HIS -> ginv c S i (GLive kn en) s -> seg_ok S i g o n ->
+(* the received ranges after a segment S[off, off+n) has been given to the stream in state g1
+   (Model/C09Spec.v, note_seg) *)
+Definition rnote (g1 : gst) (R0 : list (Z * Z)) (off n : Z) : list (Z * Z) :=
+  match g1 with
+  | GLive kn false =>
+    if (0 <? n) && (match kn with Some (_, p) => p <? off + n | None => true end) then
+      (Z.max off (match kn with Some (_, p) => p | None => off end),
+       off + n - Z.max off (match kn with Some (_, p) => p | None => off end)) :: R0
+    else R0
+  | _ => R0
+  end.
+
+Lemma asm_body_ok : forall S i c syn s evn g kn en o n R0,
+  zlen S < HIS -> ginv c S i R0 (GLive kn en) s -> seg_ok S i g o n ->
+  R = rnote (gnote (GLive kn en) (g_syn g)) R0 o n ->
   exists st' ev g',
     asm_body fullv s evn g = (st', evn ++ ev, false) /\
-    gevs S c (limits_on c) syn (s_ncalls s) (gnote (GLive kn en) (g_syn g)) ev g' /\ ginv c S i g' st' /\
+    gevs S c (limits_on c) syn (s_ncalls s) (gnote (GLive kn en) (g_syn g)) ev g' /\ ginv c S i R g' st' /\
     s_ncalls st' = (s_ncalls s + nsg ev)%nat.
 Proof.
-  intros S i c syn s evn g kn en o n HS (Hcfg & Hex & Hcl & Hopen) (Hfo & Hb & Ho & Hn & HoS & Hfin & Hseq & Hsyn0).
+  intros S i c syn s evn g kn en o n R0 HS (Hcfg & Hex & Hcl & Hopen & Hrev) (Hfo & Hb & Ho & Hn & HoS & Hfin & Hseq & Hsyn0) HR.
   unfold asm_body. cbn [h_closed h_next h_queue]. rewrite Hcl.
   destruct en.
   - (* closed half: the segment is ignored *)
     eexists. exists [], (GLive kn true). split; [rewrite app_nil_r; reflexivity|].
     split; [destruct kn as [(?, ?)|]; reflexivity|]. split.
     + unfold ginv. cbn [set_half s_cfg s_exists s_half h_closed].
-      split; [assumption|]. split; [assumption|]. split; [first [assumption|reflexivity]|]. intros Hc; discriminate.
+      split; [assumption|]. split; [assumption|]. split; [first [assumption|reflexivity]|].
+      cbn [s_rev_closed]. split; [intros Hc; discriminate|exact Hrev].
     + cbn [set_half s_ncalls nsg filter length]. lia.
-  - specialize (Hopen eq_refl). pose proof Hopen as (Hc0 & Hq & Hkn).
+  - destruct (Hopen eq_refl) as (Hopen' & Hrc0). clear Hopen. rename Hopen' into Hopen.
+    pose proof Hopen as (Hc0 & Hq & Hkn).
     destruct kn as [(A, p)|].
     + destruct Hkn as (Hnx & HA & HpS & Hsv). rewrite Hnx, sq_not_invalid.
       cbn [v_syn fullv andb]. rewrite Hseq.
@@ -526,10 +699,18 @@ Proof.
       { unfold half_ok. subst h. cbn [set_next h_closed h_queue h_next h_saved lo_of]. auto 10. }
       destruct (o - p >? 0) eqn:Eq.
       * replace (gnote (GLive (Some (A, p)) false) (g_syn g)) with (GLive (Some (A, p)) false) by reflexivity.
-        apply (asm_queue_ok S i c syn s evn [] (set_next h (sq i p)) (Some (A, p)) o n g); try assumption.
-        cbn [lo_of]. lia.
+        apply (asm_queue_ok S i c syn s evn [] (set_next h (sq i p)) (Some (A, p)) o n g R0); try assumption.
+        all: try (cbn [lo_of]; lia).
+        all: try (subst h; cbn [set_next h_queue]; exact Hrc0).
+        { rewrite HR. cbn [gnote rnote]. destruct (0 <? n) eqn:E0.
+          - replace (p <? o + n) with true by lia. cbn [andb]. f_equal. f_equal; lia.
+          - reflexivity. }
       * replace (gnote (GLive (Some (A, p)) false) (g_syn g)) with (GLive (Some (A, p)) false) by reflexivity.
-        apply (asm_inorder_ok S i c syn s evn [] (set_next h (sq i p)) A p o n g); try assumption. lia.
+        apply (asm_inorder_ok S i c syn s evn [] (set_next h (sq i p)) A p o n g R0); try assumption; try lia.
+        all: try (subst h; cbn [set_next h_queue]; exact Hrc0).
+        { rewrite HR. cbn [gnote rnote]. destruct (p <? o + n) eqn:E0.
+          - replace (0 <? n) with true by lia. cbn [andb]. f_equal. f_equal; lia.
+          - rewrite andb_false_r. reflexivity. }
     + destruct Hkn as (Hnx & Hsv). rewrite Hnx. replace (INVALID =? INVALID) with true by reflexivity.
       cbn [andb orb]. rewrite Hfo.
       destruct (g_syn g) eqn:Esyn.
@@ -542,41 +723,66 @@ Proof.
         assert (Htg : exists l0, (match h_queue (s_half s) with [] => [] | _ :: _ => [ETag 18] end) = map ETag l0).
         { destruct (h_queue (s_half s)); [exists []|exists [18]]; reflexivity. }
         destruct Htg as (l0 & Htg). rewrite Htg.
-        destruct (asm_inorder_ok S i c syn s evn l0 (set_next h (sq i 0)) 0 0 0 n g) as (st' & ev & g' & H1 & H2 & H3 & H4);
+        destruct (asm_inorder_ok S i c syn s evn l0 (set_next h (sq i 0)) 0 0 0 n g R0) as (st' & ev & g' & H1 & H2 & H3 & H4);
           try assumption; try lia.
+        { subst h. cbn [set_next h_queue]. destruct Hrc0 as (K1 & K2 & K3 & K4 & _). unfold rcv_ok. cbn [lo_of] in *.
+          split; [exact K1|]. split; [exact K2|]. split; [exact K3|]. split; [exact K4|].
+          destruct R0 as [|r0 t0]; [left; reflexivity|right].
+          assert (Hr0 : inR (r0 :: t0) (fst r0)).
+          { inversion K1; subst. exists r0. split; [left; reflexivity|lia]. }
+          apply inR_max in Hr0. inversion K2; subst. lia. }
+        { rewrite HR. cbn [gnote rnote]. destruct (0 <? 0 + n) eqn:E0.
+          - replace (0 <? n) with true by lia. cbn [andb]. f_equal. all: try (f_equal; lia).
+          - rewrite andb_false_r. reflexivity. }
         exists st', ev, g'. auto.
       * cbn [orb gnote].
         match goal with |- context [set_next ?hh _] => set (h := hh) end.
         assert (Hh : half_ok S i None (set_next h INVALID)).
         { unfold half_ok. subst h. cbn [set_next h_closed h_queue h_next h_saved lo_of] in *. auto. }
         rewrite Hseq.
-        apply (asm_queue_ok S i c syn s evn [] (set_next h INVALID) None o n g); try assumption; cbn [lo_of]; lia.
+        apply (asm_queue_ok S i c syn s evn [] (set_next h INVALID) None o n g R0); try assumption; try (cbn [lo_of]; lia).
+        all: try (subst h; cbn [set_next h_queue]; exact Hrc0).
+        { rewrite HR. cbn [gnote rnote]. rewrite andb_true_r.
+          destruct (0 <? n); [f_equal; f_equal; lia|reflexivity]. }
 Qed.
 
-Lemma assemble_ok : forall S i c st seg g o n,
-  zlen S < HIS -> ginv c S i g st -> seg_ok S i seg o n ->
+(* a dead connection starts a new stream with nothing received *)
+Definition glive (g : gst) : gst := match g with GDead => GLive None false | _ => g end.
+Definition rbase (g : gst) (R0 : list (Z * Z)) : list (Z * Z) := match g with GDead => [] | _ => R0 end.
+
+Lemma rcv_ok_nil : forall S i, rcv_ok S i [] None [].
+Proof.
+  intros. unfold rcv_ok. split; [constructor|]. split; [constructor|]. split; [|split; [|exact I]].
+  - intros x (r & [] & _).
+  - intros x Hx. destruct (covl_nil S i x Hx).
+Qed.
+
+Lemma assemble_ok : forall S i c st seg g o n R0,
+  zlen S < HIS -> ginv c S i R0 g st -> seg_ok S i seg o n ->
+  R = rnote (gnote (glive g) (g_syn seg)) (rbase g R0) o n ->
   exists st' ev g',
     assemble fullv st seg = (st', ev, false) /\
-    gevs S c (limits_on c) (g_syn seg) (s_ncalls st) (gnote g (g_syn seg)) ev g' /\ ginv c S i g' st' /\
+    gevs S c (limits_on c) (g_syn seg) (s_ncalls st) (gnote g (g_syn seg)) ev g' /\ ginv c S i R g' st' /\
     s_ncalls st' = (s_ncalls st + nsg ev)%nat.
 Proof.
-  intros S i c st seg g o n HS Hinv Hseg. rewrite assemble_unfold.
+  intros S i c st seg g o n R0 HS Hinv Hseg HR. rewrite assemble_unfold.
   destruct g as [|kn en].
   - destruct Hinv as (Hcfg & Hex). rewrite Hex.
     set (s' := mkSt (s_cfg st) true (new_half (g_ts seg)) false (g_ts seg) (s_used st)
                     (Datatypes.S (s_sid st)) (s_ncalls st)).
-    assert (Hi' : ginv c S i (GLive None false) s').
+    assert (Hi' : ginv c S i [] (GLive None false) s').
     { unfold ginv, s'. cbn [s_cfg s_exists s_half new_half h_closed]. split; [exact Hcfg|]. split; [reflexivity|].
-      split; [reflexivity|]. intros _. unfold half_ok, new_half. cbn [h_closed h_queue h_next h_saved lo_of qok].
+      split; [reflexivity|]. split; [|intros Hc; discriminate]. intros _. split; [|unfold new_half; cbn [h_queue]; apply rcv_ok_nil].
+      unfold half_ok, new_half. cbn [h_closed h_queue h_next h_saved lo_of qok].
       split; [reflexivity|]. split; [unfold HIS, HALFW; lia|]. split; reflexivity. }
-    destruct (asm_body_ok S i c (g_syn seg) s' [ENew (Datatypes.S (s_sid st))] seg None false o n HS Hi' Hseg)
+    destruct (asm_body_ok S i c (g_syn seg) s' [ENew (Datatypes.S (s_sid st))] seg None false o n [] HS Hi' Hseg HR)
       as (st' & ev & g' & H1 & H2 & H3 & H4).
     exists st', (ENew (Datatypes.S (s_sid st)) :: ev), g'. split; [exact H1|]. split.
     + cbn [gnote gevs is_sg]. eexists. split; [cbn [gev]; split; reflexivity|]. exact H2.
     + split; [exact H3|]. cbn [s_ncalls] in H4. subst s'. cbn [s_ncalls] in H4. rewrite H4.
       unfold nsg. cbn [filter is_sg]. reflexivity.
   - pose proof Hinv as (Hcfg & Hex & _). rewrite Hex.
-    destruct (asm_body_ok S i c (g_syn seg) st [] seg kn en o n HS Hinv Hseg) as (st' & ev & g' & H1 & H2 & H3 & H4).
+    destruct (asm_body_ok S i c (g_syn seg) st [] seg kn en o n R0 HS Hinv Hseg HR) as (st' & ev & g' & H1 & H2 & H3 & H4).
     exists st', ev, g'. cbn [app] in H1. auto.
 Qed.
 
@@ -591,41 +797,70 @@ Proof. intros. left. reflexivity. Qed.
 Definition stopped (g : gst) (st : st) : Prop :=
   match g with GLive _ false => True | _ => h_closed (s_half st) = true end.
 
+Lemma fold_max_le : forall (R' : list (Z * Z)) m p, m <= p -> (forall r, In r R' -> fst r + snd r <= p) ->
+  fold_left (fun m r => Z.max m (fst r + snd r)) R' m <= p.
+Proof.
+  induction R' as [|r t IH]; intros m p Hm H; cbn [fold_left]; [exact Hm|].
+  apply IH; [specialize (H r (or_introl eq_refl)); lia|intros r' Hin; apply H; right; exact Hin].
+Qed.
+
+(* an empty queue: everything received lies before the delivery point *)
+Lemma rcv_empty : forall S i kn,
+  rcv_ok S i R kn [] -> match kn with Some (_, p) => 0 <= p -> max_recv R <= p | None => R = [] end.
+Proof.
+  intros S i kn (HRp & HRn & C1 & _ & _).
+  assert (HRp' : forall r, In r R -> 0 < snd r) by (apply Forall_forall; exact HRp).
+  assert (HRn' : forall r, In r R -> 0 <= fst r) by (apply Forall_forall; exact HRn).
+  destruct kn as [(A, p)|]; cbn [lo_of] in C1.
+  - intros Hp. unfold max_recv. apply fold_max_le; [exact Hp|]. intros r Hin. specialize (HRp' r Hin).
+    destruct (Z_le_gt_dec (fst r + snd r) p) as [Hle|Hgt]; [exact Hle|exfalso].
+    apply (covl_nil S i (fst r + snd r - 1)). apply C1; [exists r; split; [exact Hin|lia]|lia].
+  - destruct R as [|r t]; [reflexivity|exfalso].
+    specialize (HRp' r (or_introl eq_refl)). specialize (HRn' r (or_introl eq_refl)).
+    apply (covl_nil S i (fst r)). apply C1; [exists r; split; [left; reflexivity|lia]|lia].
+Qed.
+
 Lemma close_c2s_gen : forall S i c syn nc st kn,
-  ginv c S i (GLive kn false) st ->
+  ginv c S i R (GLive kn false) st -> h_queue (s_half st) = [] ->
   exists st' ev gm g', close_c2s fullv st = (st', ev) /\ gevs S c true syn nc (GLive kn false) ev gm /\
-    gclosed gm g' /\ ginv c S i g' st' /\ nsg ev = O /\ s_ncalls st' = s_ncalls st /\
+    gclosed gm g' /\ ginv c S i R g' st' /\ nsg ev = O /\ s_ncalls st' = s_ncalls st /\
     h_closed (s_half st') = true /\ (exists kn' en, g' = GLive kn' en -> en = true).
 Proof.
-  intros S i c syn nc st kn (Hcfg & Hex & Hcl & _).
+  intros S i c syn nc st kn (Hcfg & Hex & Hcl & Hop & _) Hq0.
+  destruct (Hop eq_refl) as (Hh & Hrc). rewrite Hq0 in Hrc. pose proof (rcv_empty S i kn Hrc) as Hemp.
   unfold close_c2s. destruct (s_rev_closed st).
   - eexists. eexists. exists GDead, GDead. split; [reflexivity|]. split.
-    + cbn [gevs]. exists GDead. split; [cbn [gev]; split; [eauto|reflexivity]|reflexivity].
+    + cbn [gevs]. exists GDead. split; [|reflexivity]. cbn [gev]. split; [|reflexivity].
+      exists kn, false. split; [reflexivity|]. right.
+      destruct kn as [(A, p)|]; [|exact Hemp]. apply Hemp.
+      destruct Hh as (_ & _ & _ & HA & _ & Hs). apply sok_range in Hs. lia.
     + split; [apply gclosed_refl|]. split; [unfold ginv; cbn [s_cfg s_exists]; auto|].
       split; [reflexivity|]. split; [reflexivity|]. split; [reflexivity|]. exists None, true. intros Hc; discriminate.
   - eexists. eexists. exists (GLive kn false), (GLive kn true). split; [reflexivity|]. split; [reflexivity|].
     split; [right; eauto|]. split.
     + unfold ginv. cbn [s_cfg s_exists s_half h_closed]. split; [exact Hcfg|]. split; [exact Hex|].
-      split; [reflexivity|intros Hc; discriminate].
+      split; [reflexivity|]. cbn [s_rev_closed]. split; [intros Hc; discriminate|intros _; reflexivity].
     + split; [reflexivity|]. split; [reflexivity|]. split; [reflexivity|]. exists kn, true. reflexivity.
 Qed.
 
 Lemma skip_flush_gen : forall S i c syn st kn,
-  zlen S < HIS -> ginv c S i (GLive kn false) st ->
+  zlen S < HIS -> ginv c S i R (GLive kn false) st ->
   exists st' ev gm g', skip_flush fullv st = (st', ev, false) /\
-    gevs S c true syn (s_ncalls st) (GLive kn false) ev gm /\ gclosed gm g' /\ ginv c S i g' st' /\
+    gevs S c true syn (s_ncalls st) (GLive kn false) ev gm /\ gclosed gm g' /\ ginv c S i R g' st' /\
     s_ncalls st' = (s_ncalls st + nsg ev)%nat /\ stopped g' st'.
 Proof.
-  intros S i c syn st kn HS Hinv. pose proof Hinv as (Hcfg & Hex & Hcl & Hopen).
-  specialize (Hopen eq_refl). pose proof Hopen as (_ & Hq & Hkn).
+  intros S i c syn st kn HS Hinv. pose proof Hinv as (Hcfg & Hex & Hcl & Hopen & _).
+  destruct (Hopen eq_refl) as (Hopen' & Hrc). clear Hopen. rename Hopen' into Hopen. pose proof Hopen as (_ & Hq & Hkn).
   unfold skip_flush. destruct (h_queue (s_half st)) as [|p1 q'] eqn:Eq.
-  - destruct (close_c2s_gen S i c syn (s_ncalls st) st kn Hinv)
+  - destruct (close_c2s_gen S i c syn (s_ncalls st) st kn Hinv Eq)
       as (st' & ev & gm & g' & He & Hg & Hgc & Hi & Hn & Hnc & Hclosed & _).
     rewrite He. exists st', ev, gm, g'. split; [reflexivity|]. split; [exact Hg|]. split; [exact Hgc|]. split; [exact Hi|].
     split; [rewrite Hn, Hnc; lia|].
     unfold stopped. destruct g' as [|kn' [|]]; try exact Hclosed.
     destruct Hi as (_ & _ & Hc' & _). congruence.
   - cbn [qok] in Hq. destruct Hq as (o1 & Ho1 & Ho1e & Hpg & Hq1').
+
+    destruct (first_page_facts S i kn p1 q' o1 HS Hrc Hpg Ho1 Hq1' Ho1e) as (F1 & F2 & F3 & F4 & F5 & F6).
     destruct (deliver S i c st
                 (mkHalf (h_pages (s_half st)) (h_saved (s_half st)) q' (h_next (s_half st)) (h_seen (s_half st))
                         (h_closed (s_half st)))
@@ -637,14 +872,16 @@ Proof.
     { destruct kn as [(A, p)|]; cbn [known_ok lo_of h_next h_saved] in *; [|exact Hkn].
       destruct Hkn as (H1 & H2 & H3 & H4). auto. }
     { destruct kn as [(A, p)|]; [right; reflexivity|exact I]. }
+    { exact F1. } { exact F2. } { exact F3. }
+    { cbn [h_queue clen cbytes]. exact F4. } { cbn [h_queue]. exact F5. } { cbn [clen cbytes]. exact F6. }
     rewrite Hsend. rewrite sq_not_invalid.
     eexists. exists (ETag 13 :: ev), g', g'. split; [reflexivity|]. split.
     + cbn [gevs is_sg]. eexists. split; [reflexivity|exact Hgev].
     + split; [apply gclosed_refl|]. split.
       * apply (after_deliver S i c s1 e' g'); try assumption.
         destruct g' as [|kn' en]; [exact (proj1 Hpost)|].
-        destruct Hpost as (H1 & H2 & _ & A' & Hk & H3). split; [exact H1|]. split; [exact H2|].
-        exists A'. split; [exact Hk|]. intros Hen. destruct (H3 Hen) as (_ & HA & Hs & Hqq & _). auto.
+        destruct Hpost as (H1 & H2 & _ & Hrv & A' & Hk & H3). split; [exact H1|]. split; [exact H2|]. split; [exact Hrv|].
+        exists A'. split; [exact Hk|]. intros Hen. destruct (H3 Hen) as (_ & HA & Hs & Hqq & _ & Hrc'). auto 10.
       * split.
         -- cbn [set_half s_ncalls]. rewrite Hnc. unfold nsg in *. cbn [filter is_sg]. lia.
         -- unfold stopped. cbn [set_half s_half set_next h_closed].
@@ -656,10 +893,10 @@ Qed.
 (* any number of skipFlush rounds: the loops of flushClose and FlushAll *)
 Inductive flush_res (S : list Z) (i : Z) (c : cfg) (syn : bool) (nc : nat) (g : gst) (r : st * list event * bool) : Prop :=
 | FlushRes : forall st' ev gm g',
-    r = (st', ev, false) -> gevs S c true syn nc g ev gm -> gclosed gm g' -> ginv c S i g' st' ->
+    r = (st', ev, false) -> gevs S c true syn nc g ev gm -> gclosed gm g' -> ginv c S i R g' st' ->
     s_ncalls st' = (nc + nsg ev)%nat -> stopped g' st' -> flush_res S i c syn nc g r.
 
-Lemma flush_res_nil : forall S i c syn g st, ginv c S i g st -> stopped g st ->
+Lemma flush_res_nil : forall S i c syn g st, ginv c S i R g st -> stopped g st ->
   flush_res S i c syn (s_ncalls st) g (st, [], false).
 Proof.
   intros. econstructor; [reflexivity|reflexivity|apply gclosed_refl|eassumption| |assumption].
@@ -667,7 +904,7 @@ Proof.
 Qed.
 
 Lemma fc_loop_gen : forall S i c syn t fuel st kn,
-  zlen S < HIS -> ginv c S i (GLive kn false) st ->
+  zlen S < HIS -> ginv c S i R (GLive kn false) st ->
   flush_res S i c syn (s_ncalls st) (GLive kn false) (fc_loop fuel fullv st t).
 Proof.
   intros S i c syn t. induction fuel as [|f IH]; intros st kn HS Hinv.
@@ -692,11 +929,11 @@ Proof.
         -- rewrite Hnc2, Hnc, nsg_app. lia.
 Qed.
 
-Lemma ginv_stopped : forall c S i kn en st, ginv c S i (GLive kn en) st -> stopped (GLive kn en) st.
+Lemma ginv_stopped : forall c S i kn en st, ginv c S i R (GLive kn en) st -> stopped (GLive kn en) st.
 Proof. intros c S i kn en st (_ & _ & H & _). unfold stopped. destruct en; [exact H|exact I]. Qed.
 
 Lemma flush_close_c2s_gen : forall S i c syn t tc st g,
-  zlen S < HIS -> ginv c S i g st -> stopped g st ->
+  zlen S < HIS -> ginv c S i R g st -> stopped g st ->
   flush_res S i c syn (s_ncalls st) g (flush_close_c2s fullv st t tc).
 Proof.
   intros S i c syn t tc st g HS Hinv Hst. unfold flush_close_c2s.
@@ -715,7 +952,7 @@ Proof.
   assert (gm1 = GLive kn1 false).
   { destruct Hgc as [Hgc|(k & _ & Hgc)]; [symmetry; exact Hgc|discriminate]. }
   subst gm1.
-  destruct (close_c2s_gen S i c syn (s_ncalls s1) s1 kn1 Hi)
+  destruct (close_c2s_gen S i c syn (s_ncalls s1) s1 kn1 Hi Eq1)
     as (s2 & ev2 & gm2 & g2 & He2 & Hg2 & Hgc2 & Hi2 & Hn2 & Hnc2 & Hclosed2 & _).
   rewrite He2. econstructor; [reflexivity| |exact Hgc2|exact Hi2| |].
   - eapply gevs_app; [exact Hg|]. rewrite <- Hnc. exact Hg2.
@@ -725,18 +962,19 @@ Proof.
 Qed.
 
 Lemma close_rev_gen : forall S i c syn nc st kn en,
-  ginv c S i (GLive kn en) st ->
+  ginv c S i R (GLive kn en) st ->
   exists st' ev g', close_rev st = (st', ev) /\ gevs S c true syn nc (GLive kn en) ev g' /\
-    ginv c S i g' st' /\ nsg ev = O /\ s_ncalls st' = s_ncalls st /\ stopped g' st'.
+    ginv c S i R g' st' /\ nsg ev = O /\ s_ncalls st' = s_ncalls st /\ stopped g' st'.
 Proof.
-  intros S i c syn nc st kn en (Hcfg & Hex & Hcl & Hop). unfold close_rev. rewrite Hcl.
+  intros S i c syn nc st kn en (Hcfg & Hex & Hcl & Hop & Hrv). unfold close_rev. rewrite Hcl.
   destruct en.
   - eexists. eexists. exists GDead. split; [reflexivity|]. split.
-    + cbn [gevs]. exists GDead. split; [cbn [gev]; split; [eauto|reflexivity]|reflexivity].
+    + cbn [gevs]. exists GDead. split; [cbn [gev]; split; [eauto 6|reflexivity]|reflexivity].
     + split; [unfold ginv; cbn [s_cfg s_exists]; auto|]. split; [reflexivity|]. split; [reflexivity|].
       unfold stopped. cbn [s_half]. exact Hcl.
   - eexists. eexists. exists (GLive kn false). split; [reflexivity|]. split; [reflexivity|]. split.
-    + unfold ginv. cbn [s_cfg s_exists s_half]. auto.
+    + unfold ginv. cbn [s_cfg s_exists s_half s_rev_closed]. split; [exact Hcfg|]. split; [exact Hex|]. split; [exact Hcl|].
+      split; [exact Hop|intros Hc; discriminate].
     + split; [reflexivity|]. split; [reflexivity|exact I].
 Qed.
 
@@ -754,13 +992,13 @@ Qed.
 (* the result of an operation: events legal from g, possibly a silent close, the invariant again *)
 Inductive step_res (S : list Z) (i : Z) (c : cfg) (allow syn : bool) (nc : nat) (g : gst) (r : st * list event * bool) : Prop :=
 | StepRes : forall st' ev gm g',
-    r = (st', ev, false) -> gevs S c allow syn nc g ev gm -> gclosed gm g' -> ginv c S i g' st' ->
+    r = (st', ev, false) -> gevs S c allow syn nc g ev gm -> gclosed gm g' -> ginv c S i R g' st' ->
     s_ncalls st' = (nc + nsg ev)%nat -> step_res S i c allow syn nc g r.
 
 Lemma flush_step : forall S i c syn nc g r, flush_res S i c syn nc g r -> step_res S i c true syn nc g r.
 Proof. intros S i c syn nc g r [st' ev gm g' H1 H2 H3 H4 H5 _]. econstructor; eauto. Qed.
 
-Lemma step_res_nil : forall S i c allow syn g st, ginv c S i g st -> step_res S i c allow syn (s_ncalls st) g (st, [], false).
+Lemma step_res_nil : forall S i c allow syn g st, ginv c S i R g st -> step_res S i c allow syn (s_ncalls st) g (st, [], false).
 Proof.
   intros. econstructor; [reflexivity|reflexivity|apply gclosed_refl|eassumption|].
   unfold nsg. cbn. lia.
@@ -768,13 +1006,13 @@ Qed.
 
 (* FlushWithOptions / FlushCloseOlderThan *)
 Lemma flush_opts_gen : forall S i c syn t tc st g,
-  zlen S < HIS -> ginv c S i g st ->
+  zlen S < HIS -> ginv c S i R g st ->
   step_res S i c true syn (s_ncalls st) g (flush_opts fullv st t tc).
 Proof.
   intros S i c syn t tc st g HS Hinv. unfold flush_opts.
   destruct g as [|kn en].
   - pose proof Hinv as (Hcfg & Hex). rewrite Hex. cbn [negb]. apply step_res_nil. exact Hinv.
-  - pose proof Hinv as (Hcfg & Hex & Hcl & Hop). rewrite Hex. cbn [negb].
+  - pose proof Hinv as (Hcfg & Hex & Hcl & Hop & _). rewrite Hex. cbn [negb].
     apply flush_step.
     unfold flush_close_rev.
     destruct (s_rev_closed st).
@@ -793,7 +1031,7 @@ Qed.
 
 (* FlushAll *)
 Lemma fa_loop_gen : forall S i c syn fuel st g,
-  zlen S < HIS -> ginv c S i g st -> stopped g st ->
+  zlen S < HIS -> ginv c S i R g st -> stopped g st ->
   flush_res S i c syn (s_ncalls st) g (fa_loop fuel fullv st).
 Proof.
   intros S i c syn. induction fuel as [|f IH]; intros st g HS Hinv Hst.
@@ -816,13 +1054,13 @@ Proof.
 Qed.
 
 Lemma flush_all_gen : forall S i c syn st g,
-  zlen S < HIS -> ginv c S i g st ->
+  zlen S < HIS -> ginv c S i R g st ->
   step_res S i c true syn (s_ncalls st) g (flush_all fullv st).
 Proof.
   intros S i c syn st g HS Hinv. unfold flush_all.
   destruct g as [|kn en].
   - pose proof Hinv as (Hcfg & Hex). rewrite Hex. cbn [negb]. apply step_res_nil. exact Hinv.
-  - pose proof Hinv as (Hcfg & Hex & Hcl & Hop). rewrite Hex. cbn [negb].
+  - pose proof Hinv as (Hcfg & Hex & Hcl & Hop & _). rewrite Hex. cbn [negb].
     apply flush_step.
     destruct (s_rev_closed st).
     { pose proof (fa_loop_gen S i c syn (Datatypes.S (Datatypes.S (length (h_queue (s_half st))))) st (GLive kn en) HS Hinv
@@ -834,6 +1072,28 @@ Proof.
     apply fa_loop_gen; assumption.
 Qed.
 
+(* after FlushAll no stream is left: the loop runs until the data half is closed (its fuel exceeds
+   the queue length, every round takes at least one page), the other half was closed first *)
+Lemma flush_all_dead : forall S i c st st' ev g',
+  flush_all fullv st = (st', ev, false) -> ginv c S i R g' st' -> g' = GDead.
+Proof.
+  intros S i c st st' ev g' He Hi. unfold flush_all in He.
+  destruct (s_exists st) eqn:Hex; cbn [negb] in He.
+  2:{ inversion He; subst st'. destruct g' as [|kn en]; [reflexivity|]. destruct Hi as (_ & Hx & _). congruence. }
+  assert (Hs1 : exists s1 ev1, (if s_rev_closed st then (st, []) else close_rev st) = (s1, ev1) /\ s_rev_closed s1 = true).
+  { destruct (s_rev_closed st) eqn:Erc; [exists st, []; auto|]. unfold close_rev.
+    destruct (h_closed (s_half st)); eexists; eexists; split; reflexivity. }
+  destruct Hs1 as (s1 & ev1 & Hs1 & Hrc1). rewrite Hs1 in He.
+  pose proof (fa_loop_facts fullv (Datatypes.S (Datatypes.S (length (h_queue (s_half s1))))) s1) as (F1 & F2).
+  destruct (fa_loop (Datatypes.S (Datatypes.S (length (h_queue (s_half s1))))) fullv s1) as [[s2 ev2] pk2].
+  cbn [fst snd] in *. inversion He; subst s2 pk2. specialize (F2 ltac:(lia) eq_refl).
+  destruct g' as [|kn [|]]; [reflexivity| |].
+  - destruct Hi as (_ & _ & _ & _ & Hrv). specialize (Hrv eq_refl). congruence.
+  - destruct Hi as (_ & _ & Hcl & _). congruence.
+Qed.
+
+End WithR.
+
 (* ---------------------------------------------------------------- histories *)
 Definition cfg_after (c : cfg) (h : hop) : cfg :=
   match h with
@@ -844,16 +1104,24 @@ Definition cfg_after (c : cfg) (h : hop) : cfg :=
 Definition syn_of (h : hop) : bool := match h with HSyn _ _ => true | _ => false end.
 Definition allow_of (c : cfg) (h : hop) : bool := negb (is_seg h) || limits_on c.
 
+(* the received ranges after the operation has been noted *)
+Definition rstep (g : gst) (R0 : list (Z * Z)) (h : hop) : list (Z * Z) :=
+  match h with
+  | HSyn n _ => rnote (gnote (glive g) true) (rbase g R0) 0 n
+  | HData o n _ _ _ => rnote (gnote (glive g) false) (rbase g R0) o n
+  | _ => R0
+  end.
+
 Lemma gnote_false : forall g, gnote g false = g.
 Proof. intros [|[kn|] [|]]; reflexivity. Qed.
 
-Lemma hop_step : forall S i c st g h,
-  zlen S < HIS -> ginv c S i g st -> hop_okb S h = true ->
-  step_res S i (cfg_after c h) (allow_of (cfg_after c h) h) (syn_of h) (s_ncalls st) (gnote g (syn_of h))
+Lemma hop_step : forall S i c st g h R0,
+  zlen S < HIS -> ginv c S i R0 g st -> hop_okb S h = true ->
+  step_res (rstep g R0 h) S i (cfg_after c h) (allow_of (cfg_after c h) h) (syn_of h) (s_ncalls st) (gnote g (syn_of h))
            (step fullv st (op_of S i h)).
 Proof.
-  intros S i c st g h HS Hinv Hok.
-  destruct h as [a b|k|n ts|o n fin rst ts|t tc|]; cbn [op_of step cfg_after syn_of allow_of is_seg negb orb].
+  intros S i c st g h R0 HS Hinv Hok.
+  destruct h as [a b|k|n ts|o n fin rst ts|t tc|]; cbn [op_of step cfg_after syn_of allow_of is_seg negb orb rstep].
   - rewrite gnote_false.
     econstructor; [reflexivity|reflexivity|apply gclosed_refl| |cbn [s_ncalls nsg filter length]; lia].
     destruct Hinv as (Hcfg & Hg). unfold ginv. cbn [s_cfg s_exists s_half]. rewrite Hcfg. split; [reflexivity|exact Hg].
@@ -861,49 +1129,57 @@ Proof.
     econstructor; [reflexivity|reflexivity|apply gclosed_refl| |cbn [s_ncalls nsg filter length]; lia].
     destruct Hinv as (Hcfg & Hg). unfold ginv. cbn [s_cfg s_exists s_half]. rewrite Hcfg. split; [reflexivity|exact Hg].
   - cbn [hop_okb] in Hok.
-    destruct (assemble_ok S i c st (mkSeg (i mod M32) true false false false ts (sub S 0 n)) g 0 n HS Hinv)
+    destruct (assemble_ok (rnote (gnote (glive g) true) (rbase g R0) 0 n) S i c st
+                (mkSeg (i mod M32) true false false false ts (sub S 0 n)) g 0 n R0 HS Hinv)
       as (st' & ev & g' & He & Hg & Hi & Hnc).
     { unfold seg_ok. cbn [g_force g_bytes g_fin g_syn g_seq].
       split; [reflexivity|]. split; [reflexivity|]. split; [lia|]. split; [lia|]. split; [lia|].
       split; [intros Hc; discriminate|]. split; [apply syn_seq|intros; reflexivity]. }
+    { reflexivity. }
     cbn [g_syn] in Hg. econstructor; [exact He|exact Hg|apply gclosed_refl|exact Hi|exact Hnc].
   - cbn [hop_okb] in Hok.
-    destruct (assemble_ok S i c st (mkSeg (sq i o) false fin rst false ts (sub S o n)) g o n HS Hinv)
+    destruct (assemble_ok (rnote (gnote (glive g) false) (rbase g R0) o n) S i c st
+                (mkSeg (sq i o) false fin rst false ts (sub S o n)) g o n R0 HS Hinv)
       as (st' & ev & g' & He & Hg & Hi & Hnc).
     { unfold seg_ok. cbn [g_force g_bytes g_fin g_syn g_seq].
       split; [reflexivity|]. split; [reflexivity|]. split; [lia|]. split; [lia|]. split; [lia|].
       split; [intros Hf; subst fin; cbn [negb orb] in Hok; lia|]. split; [reflexivity|intros Hc; discriminate]. }
+    { reflexivity. }
     cbn [g_syn] in Hg. econstructor; [exact He|exact Hg|apply gclosed_refl|exact Hi|exact Hnc].
   - rewrite gnote_false. apply flush_opts_gen; assumption.
   - rewrite gnote_false. apply flush_all_gen; assumption.
 Qed.
 
-(* the trace of a history, read with the abstract state *)
-Fixpoint gtrace (S : list Z) (c : cfg) (g : gst) (nc : nat) (hs : list hop) (tr : list (list event * Z)) : Prop :=
+(* the trace of a history, read with the abstract state and the received ranges *)
+Fixpoint gtrace (S : list Z) (c : cfg) (g : gst) (R0 : list (Z * Z)) (nc : nat) (hs : list hop)
+                (tr : list (list event * Z)) : Prop :=
   match hs, tr with
   | [], [] => True
   | h :: hs', (ev, _) :: tr' =>
-    exists gm g', gevs S (cfg_after c h) (allow_of (cfg_after c h) h) (syn_of h) nc (gnote g (syn_of h)) ev gm /\
-                  gclosed gm g' /\ gtrace S (cfg_after c h) g' (nc + nsg ev)%nat hs' tr'
+    exists gm g', gevs (rstep g R0 h) S (cfg_after c h) (allow_of (cfg_after c h) h) (syn_of h) nc (gnote g (syn_of h)) ev gm /\
+                  gclosed gm g' /\ (h = HFlushAll -> g' = GDead) /\
+                  gtrace S (cfg_after c h) g' (rstep g R0 h) (nc + nsg ev)%nat hs' tr'
   | _, _ => False
   end.
 
-Lemma run_gtrace : forall S i hs c st g,
-  zlen S < HIS -> ginv c S i g st -> forallb (hop_okb S) hs = true ->
-  gtrace S c g (s_ncalls st) hs (run_trace fullv st (map (op_of S i) hs)).
+Lemma run_gtrace : forall S i hs c st g R0,
+  zlen S < HIS -> ginv c S i R0 g st -> forallb (hop_okb S) hs = true ->
+  gtrace S c g R0 (s_ncalls st) hs (run_trace fullv st (map (op_of S i) hs)).
 Proof.
-  intros S i. induction hs as [|h t IH]; intros c st g HS Hinv Hok; cbn [map run_trace gtrace]; [exact I|].
+  intros S i. induction hs as [|h t IH]; intros c st g R0 HS Hinv Hok; cbn [map run_trace gtrace]; [exact I|].
   cbn [forallb] in Hok. apply andb_prop in Hok. destruct Hok as (Ho1 & Ho2).
-  destruct (hop_step S i c st g h HS Hinv Ho1) as [st' ev gm g' He Hg Hgc Hi Hnc].
-  rewrite He. exists gm, g'. split; [exact Hg|]. split; [exact Hgc|]. rewrite <- Hnc. apply IH; assumption.
+  destruct (hop_step S i c st g h R0 HS Hinv Ho1) as [st' ev gm g' He Hg Hgc Hi Hnc].
+  rewrite He. exists gm, g'. split; [exact Hg|]. split; [exact Hgc|]. split.
+  - intros Hh. subst h. cbn [op_of step] in He. eapply flush_all_dead; [exact He|exact Hi].
+  - rewrite <- Hnc. apply IH; assumption.
 Qed.
 
 (* every history: no panic (the trace has one entry per operation) and the events are legal *)
 Theorem stream_events : forall S i hs,
   zlen S < HIS -> forallb (hop_okb S) hs = true ->
-  gtrace S (mkCfg 0 0 []) GDead 0 hs (run_hist fullv S i hs).
+  gtrace S (mkCfg 0 0 []) GDead [] 0 hs (run_hist fullv S i hs).
 Proof.
   intros S i hs HS Hok. unfold run_hist.
-  apply (run_gtrace S i hs (mkCfg 0 0 []) init GDead HS); [|exact Hok].
+  apply (run_gtrace S i hs (mkCfg 0 0 []) init GDead [] HS); [|exact Hok].
   unfold ginv, init. cbn [s_cfg s_exists]. auto.
 Qed.
